@@ -359,9 +359,16 @@ pub fn gen_elem(t: &mut Tape, sw: &GdsSwarm, names: &[String]) -> GdsElement {
 pub fn gen_lib(t: &mut Tape, profile: StrProfile) -> (GdsLibrary, GdsSwarm) {
     let sw = GdsSwarm::draw(t, profile);
     let nstructs = t.draw(sw.max_structs + 1);
+    let wide = profile != StrProfile::Markup && t.chance(1, 250) && !sw.long_strings && !sw.oversize && sw.max_pts <= 12;
     let mut names: Vec<String> = Vec::new();
     for _ in 0..nstructs {
-        names.push(gen_string(t, &sw));
+        // one name in 10 repeats an earlier one: nothing in the data model forbids two structs of one name
+        if !names.is_empty() && t.chance(1, 10) {
+            let again = t.pick(&names).clone();
+            names.push(again);
+        } else {
+            names.push(gen_string(t, &sw));
+        }
     }
     let mut structs = Vec::new();
     for i in 0..nstructs as usize {
@@ -371,7 +378,47 @@ pub fn gen_lib(t: &mut Tape, profile: StrProfile) -> (GdsLibrary, GdsSwarm) {
         for _ in 0..nel {
             elems.push(gen_elem(t, &sw, &names));
         }
+        // one library in 250: "wide" content in its first struct - hundreds to thousands of elements and hundreds of
+        // properties on one of them - built by repeating the drawn elements (no further draws, so tapes stay short);
+        // counts sit around thresholds that are not machine limits (255/256, 1000, 1024, 4096)
+        if i == 0 && wide && !elems.is_empty() {
+            let target = *t.pick(&[255usize, 256, 257, 1000, 1001, 1024, 4096, 5000]);
+            let base = elems.clone();
+            let mut k = 0usize;
+            while elems.len() < target {
+                let mut e = base[k % base.len()].clone();
+                if let GdsElement::GdsBoundary(b) = &mut e {
+                    b.layer = (k % 300) as i16;
+                }
+                elems.push(e);
+                k += 1;
+            }
+            let nprops = *t.pick(&[0usize, 127, 255, 256, 300, 1000]);
+            let props: Vec<GdsProperty> = (0..nprops).map(|j| GdsProperty { attr: (j % 400) as i16, value: format!("v{}", j) }).collect();
+            match &mut elems[0] {
+                GdsElement::GdsBoundary(x) => x.properties = props,
+                GdsElement::GdsPath(x) => x.properties = props,
+                GdsElement::GdsStructRef(x) => x.properties = props,
+                GdsElement::GdsArrayRef(x) => x.properties = props,
+                GdsElement::GdsTextElem(x) => x.properties = props,
+                GdsElement::GdsNode(x) => x.properties = props,
+                GdsElement::GdsBox(x) => x.properties = props,
+            }
+        }
         structs.push(GdsStruct { name: names[i].clone(), dates, elems });
+    }
+    // many structs, by the same device
+    if wide && !structs.is_empty() && t.chance(1, 2) {
+        let target = *t.pick(&[100usize, 255, 256, 1000]);
+        let base = structs.clone();
+        let mut k = 0usize;
+        while structs.len() < target {
+            let mut s2 = base[k % base.len()].clone();
+            s2.name = format!("{}_{}", s2.name.chars().take(20).collect::<String>().replace('\0', "n"), k);
+            s2.elems.truncate(3);
+            structs.push(s2);
+            k += 1;
+        }
     }
     let lib = GdsLibrary {
         name: gen_string(t, &sw),
